@@ -15,7 +15,7 @@ pub const FLOORS: &[&str] = &[
     "neglit:BR", "neglit:LD", "neglit:JSR", "form:TRAP", "form:ALIAS", "form:NOT", "form:JMP",
     "form:JSRR", "form:RET", "form:PUSH", "form:POP", "form:RETS", "form:FILL", "form:BLKW",
     "form:STRINGZ", "orig:none", "orig:lt3000", "orig:3000", "orig:mid", "orig:ge8000",
-    "layout:wild", "layout:canonical", "accepted", "unencodable_rejected",
+    "layout:wild", "layout:canonical", "accepted", "unencodable_rejected", "text_after_end:with_orig", "text_after_end:no_orig",
 ];
 
 pub fn sweep_stmts() -> Vec<Stmt> {
@@ -290,6 +290,9 @@ fn classes_of(out: &mut CaseOut, p: &Program, img: &RefImage) {
     for item in &p.items {
         let Item::Stmt { stmt, .. } = item else {
             if matches!(item, Item::End) {
+                if !matches!(p.items.last(), Some(Item::End)) {
+                    out.class(if img.orig.is_some() { "text_after_end:with_orig" } else { "text_after_end:no_orig" });
+                }
                 break;
             }
             continue;
